@@ -9,6 +9,13 @@ def repo_commits(prefix):
     return [l.split()[0] for l in out.splitlines() if l.split(" ", 1)[1].startswith(prefix)]
 
 CLAIMS = {
+    "C08": dict(
+        level="exploration",
+        technique="model-based stateful property testing: accounting model of every resource pool run alongside a real AudioManager over generated create / drop / finish / callback histories, probe destructors recording where resources die, plus slot-reuse scenarios for stale ids",
+        text="Histories over every resource kind and every capacity in {0,1,2,3,5} are executed against the real manager; the model predicts every creation result (success iff below capacity, otherwise the documented error, never a panic), every count and capacity accessor after every step, and the callback at which each marked resource leaves (next callback if picked up, one later otherwise; tracks only when no live descendant needs them). Probe sounds/effects record the place of their destruction (never inside a callback; callbacks free no memory). Capacity-1 slots of clocks, modulators, listeners and send tracks are reused 1..4 times and the old id must keep behaving as missing. Search with shrinking.",
+        note="Interleavings inside the lock-free rings / arena of the external crates are not controlled here (whole-operation granularity, one thread); see DESIGN.md section 7.",
+        design="5/C08",
+    ),
     "C12": dict(
         level="exploration",
         technique="model-based stateful property testing: reference track-tree model (five-state machine per track, freeze propagation, removal / persistence rules) evaluated in f64 alongside a real AudioManager over generated pause / resume / resume_at / drop histories with index-coded sounds",
